@@ -383,3 +383,163 @@ Proof.
     apply (Core true th0 pa tk Ep) in H. tauto.
   - intros H. split; [tauto|]. apply (Core false th0 (s_path ss) TrBad Ep) in H. tauto.
 Qed.
+
+Lemma ports_conflict_some sl ss port rs :
+  (forall rid r, In rid rs -> find_sess rid sl = Some r -> s_tr r <> None) ->
+  ports_conflict sl ss port rs <> None.
+Proof.
+  induction rs as [|rid t IH]; intros H; cbn [ports_conflict]; [discriminate|].
+  assert (IH' : ports_conflict sl ss port t <> None) by (apply IH; intros; eapply H; [right|]; eassumption).
+  destruct (find_sess rid sl) as [r|] eqn:F; [|exact IH'].
+  pose proof (H rid r (or_introl eq_refl) F) as Ht.
+  destruct (s_tr r) as [[[] b]|]; try congruence; try exact IH'.
+  destruct ((s_ip r =? s_ip ss) && existsb (fun m => m_rtp m =? port) (s_medias r)); [discriminate | exact IH'].
+Qed.
+
+Lemma is_supported_udp g c th : is_supported g c th = true -> proto_of th = SPUDP -> c_udp g = true.
+Proof.
+  unfold is_supported, proto_of. destruct (t_proto th); [|discriminate]. destruct (t_mcast th); [discriminate|].
+  intros H _. apply Bool.andb_true_iff in H. destruct H as [H _].
+  apply Bool.andb_true_iff in H. destruct H as [H _]. apply Bool.andb_true_iff in H. tauto.
+Qed.
+
+Lemma sess_setup_spec g c s ss r :
+  InvX (Some (c_id c)) s -> In ss (v_sess s) -> tcp_pre c ss -> h_setup g = true -> 0 < c_nmedias g ->
+  exists s1 ss1 st e, sess_setup g s c ss r = Some (s1, ss1, st, e) /\ Post c s ss s1 ss1 e.
+Proof.
+  intros I HI Hpre Hh Hnm. pose proof (inv_ok _ s I ss HI) as OK. unfold sess_setup.
+  assert (Same : forall (st : N) (e : rerr), e <> RSwitch true ->
+            exists s1 ss1 st' e', Some (s, ss, st, e) = Some (s1, ss1, st', e') /\ Post c s ss s1 ss1 e').
+  { intros st e He. do 4 eexists. split; [reflexivity|]. apply Post_same; assumption. }
+  destruct (validate_setup g c ss r) as [st0 e0|th p path trk] eqn:V.
+  { destruct e0; apply Same; discriminate. }
+  apply validate_setup_accept in V. destruct V as (Hst & Hsup & Hp & Hold & Hcp & Hnomc).
+  rewrite Hh. cbn [negb].
+  match goal with |- context [negb (if ?pl then r_verdict_play r else r_verdict r)] =>
+    destruct (negb (if pl then r_verdict_play r else r_verdict r)); [apply Same; discriminate|] end.
+  (* the media lookup never dereferences nil *)
+  set (lk := if match s_state ss with SInitial | SPrePlay => true | _ => false end
+             then media_by_track (c_nmedias g) trk
+             else match s_announced ss with
+                  | None => None
+                  | Some n => Some match r_rec_media r with
+                                   | Some k => if k <? n then Some k else None
+                                   | None => None
+                                   end
+                  end).
+  assert (Lk : exists mk, lk = Some mk).
+  { subst lk. destruct Hst as [Es|[Es|Es]]; rewrite Es.
+    - unfold media_by_track. destruct trk; [apply N.ltb_lt in Hnm; rewrite Hnm|..]; eexists; reflexivity.
+    - unfold media_by_track. destruct trk; [apply N.ltb_lt in Hnm; rewrite Hnm|..]; eexists; reflexivity.
+    - destruct (ok_ann ss OK) as (n & Han & _); [tauto|]. rewrite Han. eexists; reflexivity. }
+  destruct Lk as (mk & ->). destruct mk as [k|]; [|apply Same; discriminate].
+  destruct (existsb (fun m => m_idx m =? k) (s_medias ss)); [apply Same; discriminate|].
+  assert (Hnr : running ss = false) by (unfold running; destruct Hst as [Es|[Es|Es]]; rewrite Es; reflexivity).
+  (* the common ending *)
+  assert (Fin : forall readers' mc' mw' ss2,
+            s_id ss2 = s_id ss -> s_conns ss2 = s_conns ss -> SessOK ss2 ->
+            mc' + b2n (mreader ss) = v_mcount s + b2n (mreader ss2) -> (mw' = true <-> 0 < mc') ->
+            (forall rid, In rid readers' -> rid = s_id ss \/ In rid (v_readers s)) -> s_tr ss2 <> None ->
+            Post c s ss (mkSrv (v_conns s) (v_sess s) readers' (v_active s) mc' mw' (v_rtp s) (v_rtcp s) (v_next s)) ss2 RNone).
+  { intros readers' mc' mw' ss2 H1 H2 H3 H4 H5 H6 H7.
+    constructor; [|reflexivity|reflexivity|assumption|assumption|discriminate|].
+    - unfold set_sess. cbn [v_conns v_sess v_readers v_active v_mcount v_mwriters v_rtp v_rtcp v_next].
+      apply (Inv_update_req c s ss ss2); try assumption. intros _. assumption.
+    - intros _ (A & B & C). congruence. }
+  set (sec := t_secure th) in *.
+  assert (E0 : s = mkSrv (v_conns s) (v_sess s) (v_readers s) (v_active s) (v_mcount s) (v_mwriters s) (v_rtp s) (v_rtcp s) (v_next s)) by (destruct s; reflexivity).
+  destruct Hst as [Es|[Es|Es]]; rewrite Es; cbn [sstate_eqb].
+  - (* first SETUP of a reading session: the session joins the stream *)
+    destruct (ok_init ss OK Es) as [Hstr Htr0].
+    assert (Hmr : mreader ss = false) by (unfold mreader; rewrite Hstr; reflexivity).
+    unfold reader_add. cbn [s_tr s_id].
+    destruct p eqn:Ep.
+    + (* UDP *)
+      destruct (t_cports th) as [[a b]|] eqn:Ecp; [|exfalso; apply Hcp; reflexivity].
+      match goal with |- context [ports_conflict ?a ?b ?c ?d] =>
+        pose proof (ports_conflict_some a b c d (inv_readers _ s I)) as Pc; destruct (ports_conflict a b c d) as [[]|] end;
+        [apply Same; discriminate | | congruence].
+      rewrite (is_supported_udp g c th Hsup) by congruence.
+      do 4 eexists. split; [reflexivity|]. apply Fin; try reflexivity.
+      * sess_ok OK; destruct (s_medias ss); discriminate.
+      * rewrite Hmr. unfold mreader, is_mcast. cbn. lia.
+      * apply I.
+      * intros rid Hr. apply In_nadd in Hr. tauto.
+      * discriminate.
+    + (* multicast *)
+      set (mw := if v_mcount s =? 0 then true else v_mwriters s).
+      assert (Hmw : mw = true).
+      { subst mw. destruct (v_mcount s =? 0) eqn:E0'; [reflexivity|]. apply N.eqb_neq in E0'. apply (inv_mwr _ s I). lia. }
+      cbn [v_mwriters]. fold mw. rewrite Hmw.
+      do 4 eexists. split; [reflexivity|]. apply Fin; try reflexivity.
+      * sess_ok OK; destruct (s_medias ss); discriminate.
+      * rewrite Hmr. unfold mreader, is_mcast. cbn. lia.
+      * split; [lia | reflexivity].
+      * intros rid Hr. apply In_nadd in Hr. tauto.
+      * discriminate.
+    + (* TCP *)
+      assert (Ch : exists sm, match t_inter th with
+                              | Some (a, _) => Some (mkSM k a 0 0)
+                              | None => match find_free (s_medias ss) with Some ch => Some (mkSM k ch 0 0) | None => None end
+                              end = Some sm).
+      { destruct (t_inter th) as [[a b]|]; [eexists; reflexivity|].
+        pose proof (find_free_some (s_medias ss)). destruct (find_free (s_medias ss)); [eexists; reflexivity | congruence]. }
+      destruct Ch as (sm & ->).
+      do 4 eexists. split; [reflexivity|]. apply Fin; try reflexivity.
+      * sess_ok OK; destruct (s_medias ss); discriminate.
+      * rewrite Hmr. unfold mreader, is_mcast. cbn. lia.
+      * apply I.
+      * intros rid Hr. apply In_nadd in Hr. tauto.
+      * discriminate.
+  - (* further SETUP of a reading session *)
+    pose proof (ok_tr ss OK) as Ht. rewrite Es in Ht. specialize (Ht (or_introl eq_refl)).
+    destruct (s_tr ss) as [old|] eqn:Etr; [|congruence]. pose proof (Hold old eq_refl) as Ho. subst old.
+    pose proof (ok_stream ss OK) as Hstr. rewrite Es in Hstr. specialize (Hstr (or_introl eq_refl)).
+    assert (Sm : exists sm,
+      match p with
+      | SPUDP => match t_cports th with Some (a, b) => if c_udp g then Some (mkSM k 0 a b) else None | None => None end
+      | SPMcast => if v_mwriters s then Some (mkSM k 0 0 0) else None
+      | SPTCP => match t_inter th with
+                 | Some (a, _) => Some (mkSM k a 0 0)
+                 | None => match find_free (s_medias ss) with Some ch => Some (mkSM k ch 0 0) | None => None end
+                 end
+      end = Some sm).
+    { destruct p eqn:Ep.
+      - destruct (t_cports th) as [[a b]|] eqn:Ecp; [|exfalso; apply Hcp; reflexivity].
+        rewrite (is_supported_udp g c th Hsup) by congruence. eexists; reflexivity.
+      - assert (v_mwriters s = true) as ->; [|eexists; reflexivity].
+        eapply mreader_counted; [exact I | exact HI|]. unfold mreader, is_mcast. rewrite Hstr, Etr. reflexivity.
+      - destruct (t_inter th) as [[a b]|]; [eexists; reflexivity|].
+        pose proof (find_free_some (s_medias ss)). destruct (find_free (s_medias ss)); [eexists; reflexivity | congruence]. }
+    destruct Sm as (sm & ->).
+    do 4 eexists. split; [reflexivity|]. rewrite E0 at 2. apply Fin; try reflexivity.
+    + sess_ok OK; destruct (s_medias ss); discriminate.
+    + unfold mreader, is_mcast. cbn [s_stream s_tr]. rewrite Etr. reflexivity.
+    + apply I.
+    + tauto.
+    + discriminate.
+  - (* SETUP of a publishing session *)
+    assert (Pm : p <> SPMcast) by (apply Hnomc; unfold playing; rewrite Es; reflexivity).
+    assert (Hnmc : is_mcast ss = false) by (apply (ok_rec ss OK); tauto).
+    assert (Sm : exists sm,
+      match p with
+      | SPUDP => match t_cports th with Some (a, b) => if c_udp g then Some (mkSM k 0 a b) else None | None => None end
+      | SPMcast => if v_mwriters s then Some (mkSM k 0 0 0) else None
+      | SPTCP => match t_inter th with
+                 | Some (a, _) => Some (mkSM k a 0 0)
+                 | None => match find_free (s_medias ss) with Some ch => Some (mkSM k ch 0 0) | None => None end
+                 end
+      end = Some sm).
+    { destruct p eqn:Ep; [|congruence|].
+      - destruct (t_cports th) as [[a b]|] eqn:Ecp; [|exfalso; apply Hcp; reflexivity].
+        rewrite (is_supported_udp g c th Hsup) by congruence. eexists; reflexivity.
+      - destruct (t_inter th) as [[a b]|]; [eexists; reflexivity|].
+        pose proof (find_free_some (s_medias ss)). destruct (find_free (s_medias ss)); [eexists; reflexivity | congruence]. }
+    destruct Sm as (sm & ->).
+    do 4 eexists. split; [reflexivity|]. rewrite E0 at 2. apply Fin; try reflexivity.
+    + sess_ok OK; try (destruct (s_medias ss); discriminate). destruct p; try reflexivity; congruence.
+    + unfold mreader. rewrite Hnmc. unfold is_mcast. cbn [s_stream s_tr]. destruct p; try congruence; rewrite !Bool.andb_false_r; reflexivity.
+    + apply I.
+    + tauto.
+    + discriminate.
+Qed.
